@@ -292,6 +292,119 @@ def clause15_first_read_is_checked(ctx, P, cg):
         raise AnalysisBroken("first reads of new connections found: %d" % n)
 
 
+def clause17_nothing_after_a_read_that_ran(ctx, P, cg):
+    """read_exactly()/read_until() may run the callback at once, and the callback may release the object it was handed as context (a
+    refused request frees the connection inside the first read).  The result 0 says nothing about that; only a negative result
+    says 'nothing has run, the caller still owns everything'.  So after such a call, on every path that has not seen a negative
+    result, the function does not touch the context object any more (no load, store or call through it)"""
+    keys = {("struct.buffered_reader", P.field_index("struct.buffered_reader", "read_exactly")),
+            ("struct.buffered_reader", P.field_index("struct.buffered_reader", "read_until"))}
+    n = 0
+    bad = None
+    for f in P.own_functions():
+        arms = [i for i in f.all_insts() if i.op == "call" and not i.callee and cg.icall_field(f, i) in keys and len(i.a) >= 4]
+        if not arms:
+            continue
+        for v in Q.path_views(ctx, P, f):
+            seq = list(v.insts())
+            for k, c in seq:
+                if c not in arms:
+                    continue
+                n += 1
+                lv, _ = Q.leaves(P, f, c.a[-1], through_loads=False)
+                roots = {l for l in lv if l[0] in ("param", "call")}
+                if not roots:
+                    continue
+                neg = v.has_atom(lambda a, p: a[0] == "cmp" and Q.mentions(a[2], lambda x: x[0] in ("call", "icall") and x[3] == c.id) and
+                                 a[3] == ("const", 0) and ((a[1] == "slt" and p) or (a[1] == "sge" and not p)))
+                if neg:
+                    continue
+                for k2, j in seq:
+                    if k2 <= k or bad is not None:
+                        continue
+                    ops = []
+                    if j.op == "load":
+                        ops = [j.a[0]]
+                    elif j.op == "store":
+                        ops = [j.a[1]]
+                    elif j.op == "call":
+                        ops = [a for a in j.a if isinstance(a, int)]
+                    for o in ops:
+                        try:
+                            l2, _ = Q.leaves(P, f, o, through_loads=False)
+                        except AnalysisBroken:
+                            continue
+                        if roots & set(l2):
+                            bad = (f, c, j, v)
+                            break
+    ctx.ob("C07.1 R-OWN", P.fn("http_connection.c:init_http_connection2"), "nothing-touched-after-a-read-that-may-have-run", bad is None and n >= 10,
+           ("%s() goes on using the object it handed to the reader as callback context (at %s) after the read at %s, on a path that has not "
+            "seen a negative result: the callback may have run at once and released the object (a refused first request frees the "
+            "connection inside the read)" % (bad[0].srcname, bad[2].loc, bad[1].loc)) if bad else "%d armed reads, nothing touched behind them" % n,
+           witness=bad[3].witness() if bad else None)
+
+
+def clause18_copied_children_are_attached(ctx, P):
+    """cJSON_Duplicate() copies the children one by one and gives everything up with cJSON_Delete(newitem) when a copy fails: that
+    releases exactly what hangs on newitem.  So each copied child is attached (stored into a child/next member) inside the loop
+    iteration that made it - a copy kept in a local until after the loop is lost when a later copy fails"""
+    f = P.fn("cJSON.c:cJSON_Duplicate")
+    rec = [c for c in f.calls("cJSON_Duplicate")]
+    if not rec:
+        raise AnalysisBroken("cJSON_Duplicate: recursive copy of the children not found")
+    c = rec[0]
+    body = None
+    for h, b in f.loops().items():
+        if c.block in b:
+            body = b
+    if body is None:
+        raise AnalysisBroken("cJSON_Duplicate: the copy of the children is not in a loop")
+    bad = None
+    n = 0
+    for v in Q.path_views(ctx, P, f, loop_iters=1):
+        seq = list(v.insts())
+        ks = [k for k, i in seq if i.id == c.id]
+        if not ks:
+            continue
+        failed = v.has_atom(lambda a, p: a[0] == "cmp" and Q.mentions(a[2], lambda x: x[0] == "call" and x[3] == c.id) and a[3] == ("null",) and Q._poleq(a, p)) or \
+            v.has_atom(lambda a, p: a[0] == "truth" and Q.mentions(a[1], lambda x: x[0] == "call" and x[3] == c.id) and not p)
+        if failed:
+            continue
+        n += 1
+        attached = False
+        for k, i in seq:
+            if k > ks[0] and i.block in body and i.op == "store" and P.strip(f, i.a[0]) == c.id:
+                d = P.term(f, i.a[1])
+                if d[0] == "field" and d[2] == "struct.cJSON" and d[3] in ("child", "next"):
+                    attached = True
+            if k > ks[0] and i.block not in body:
+                break
+        if not attached:
+            bad = v
+    ctx.ob("C07.1 R-OWN", f, "copied-children-are-attached-at-once", bad is None and n >= 2,
+           "cJSON_Duplicate() keeps a copied child outside the new item beyond the loop iteration that made it: when a later copy fails, "
+           "cJSON_Delete(newitem) does not reach it - the heap accounted to the daemon stays above the baseline for good",
+           witness=bad.witness() if bad else None)
+
+
+def clause19_shutdown_order(ctx, P):
+    """at shutdown the peers go first: a websocket peer owns its http connection and releases it (close frame included) when it is
+    destroyed; the sweep over the list of http connections is for what has not become a peer.  The other way round the sweep frees
+    the connections under the peers, which then send their close frame through freed memory and free it again"""
+    rj = P.fn("linux_io.c:run_jet")
+    bad = None
+    n = 0
+    for v in Q.path_views(ctx, P, rj):
+        names = [P.srcname_of(i.callee) for _, i in v.calls() if i.callee]
+        if "close_all_http_connections" in names:
+            n += 1
+            if "destroy_all_peers" not in names or names.index("destroy_all_peers") > names.index("close_all_http_connections"):
+                bad = v
+    ctx.ob("C07.6 R-ORDER", rj, "peers-are-destroyed-before-the-connection-sweep", bad is None and n >= 1,
+           "run_jet() sweeps the list of http connections before it destroys the peers: connections that belong to websocket peers are "
+           "freed first and used (close frame) and freed again by their peers", witness=bad.witness() if bad else None)
+
+
 def clause16_handed_over_items(ctx, P):
     """add_item_to_object() takes its item over whatever happens: attached on success, deleted on failure (checked here on the
     wrapper itself).  So no caller releases an item after it has passed it to the wrapper - not on the failure branch either, where
@@ -824,4 +937,7 @@ def run(ctx):
         clause13_freed_field_is_reassigned(ctx, P)
         clause14_torn_down_means_zero(ctx, P)
         clause15_first_read_is_checked(ctx, P, cg)
+        clause17_nothing_after_a_read_that_ran(ctx, P, cg)
+        clause18_copied_children_are_attached(ctx, P)
+        clause19_shutdown_order(ctx, P)
         clause16_handed_over_items(ctx, P)
